@@ -54,7 +54,7 @@ PROPS['C12'] = dict(
     not_decided=['scheduling clauses as a proof (bounded only: real runs)', '--maxfail cut-off', 'gtest / rust protocols'],
 )
 PROPS['C07'] = dict(
-    modules=['specs.options', 'contracts.options', 'lemmas.options', 'contracts.setoption'],
+    modules=['specs.options', 'contracts.options', 'lemmas.options', 'contracts.setoption', 'contracts.pending'],
     bounded=['bounded.options'],
     level='proof',
     design_ref='DESIGN.md §4 C07, §0.6',
@@ -141,7 +141,7 @@ PROPS['C10'] = dict(
     not_decided=['the dependency() policy as a proof (bounded: the full cross product through the real meson setup in the thorough tier, a sample in the quick tier)', 'lookup sequences of length 3', 'fault injection at each step of fetch -> verify -> unpack -> patch -> diff beyond the cases listed under coverage.bounded'],
 )
 PROPS['C08'] = dict(
-    modules=['contracts.persist', 'contracts.setoption'],
+    modules=['contracts.persist', 'contracts.setoption', 'contracts.pending'],
     bounded=['bounded.persist', 'bounded.lifecycle'],
     level='other',
     design_ref='DESIGN.md §4 C08',
